@@ -700,6 +700,32 @@ def anyInnerOptTuple : List Route → Bool
   | c :: cs => c.hasInnerOptTuple || anyInnerOptTuple cs
 end
 
+/-- the optional fields of a tuple form one block: non-optional fields, optional fields, non-optional fields -/
+def inBlock : List Seg → Bool
+  | [] => true
+  | o :: r => if o.optional then inBlock r else !anyOptional (o :: r)
+
+def fieldsBlock : List Seg → Bool
+  | [] => true
+  | a :: r => if a.optional then inBlock r else fieldsBlock r
+
+def Seg.optBlock : Seg → Bool
+  | .tup [a] => a.optBlock
+  | .tup (a :: b :: l) => fieldsBlock (a :: b :: l)
+  | _ => true
+
+mutual
+/-- the class `optional-backoff-order` in its exact form: a leaf route whose optional params do not form
+one block of direct fields (the tuple back-off only ever keeps a prefix of the optionals), or a route with
+children that has two or more optional params -/
+def Route.hasSplitOpt : Route → Bool
+  | .mk segs children =>
+    (if children.isEmpty then !segs.optBlock else decide (countOptF segs.gen ≥ 2)) || anySplitOpt children
+def anySplitOpt : List Route → Bool
+  | [] => false
+  | c :: cs => c.hasSplitOpt || anySplitOpt cs
+end
+
 mutual
 /-- a route whose own segments contain two or more optional params: the tuple back-off keeps a
 *prefix* of the optionals, so "skip the first, keep the second" is never tried -/
@@ -757,7 +783,7 @@ def classify (d : Defs) (path : Path) (kind : Kind) : Class :=
     else .unclassified kind
   | .flatOnly | .winner =>
     if anyOptParent d.tops then .optionalParent
-    else if anyMultiOpt d.tops then .optionalBackoffOrder
+    else if anySplitOpt d.tops then .optionalBackoffOrder
     else if anyInnerOptTuple d.tops then .nestedOptionalTuple
     else .unclassified kind
   | .params =>
